@@ -452,6 +452,66 @@ static void world_free(void) {
     cur_exts = NULL;
 }
 
+/* "gwk <id hex> <proc: - | n> <tag hex> <id hex> <proc> <tag hex>": call the real
+ * gw_status_get_counter() for two (host id, proc, tag) triples; print the key of the
+ * plugin_stats entry each returned int* lives in, and whether it is one and the same int */
+static const buffer *ltv_stat_key_of(const int *p) {
+    for (uint32_t i = 0; i < plugin_stats.used; ++i) {
+        data_integer *di = (data_integer *)plugin_stats.data[i];
+        if (&di->value == p) return &di->key;
+    }
+    return NULL;
+}
+
+static int *ltv_stat_counter(const char *idhex, const char *pr, const char *taghex) {
+    size_t ilen, tlen;
+    unsigned char *id = ltv_unhex(idhex, &ilen);
+    unsigned char *tag = ltv_unhex(taghex, &tlen);
+    buffer idb; memset(&idb, 0, sizeof(idb));
+    buffer_copy_string_len(&idb, (char *)id, ilen);
+    gw_host host; memset(&host, 0, sizeof(host));
+    host.id = &idb;
+    gw_proc proc; memset(&proc, 0, sizeof(proc));
+    int has_proc = !(pr[0] == '-' && pr[1] == 0);
+    if (has_proc) proc.id = (uint32_t)strtoul(pr, NULL, 10);
+    int *c = gw_status_get_counter(&host, has_proc ? &proc : NULL, (char *)tag, tlen);
+    free(idb.ptr); free(id); free(tag);
+    return c;
+}
+
+static void run_gwk(void) {
+    if (ltv_ntok != 7) { puts("bad-op"); return; }
+    for (int k = 0; k < 2; ++k) {
+        const char *pr = ltv_tok[2+3*k];
+        if (!(pr[0] == '-' && pr[1] == 0)) {
+            char *e; unsigned long long v = strtoull(pr, &e, 10);
+            if (*e || e == pr || v > 4294967295ULL) { puts("bad-op"); return; }
+        }
+        for (int j = 1; j <= 3; j += 2) {
+            const char *h = ltv_tok[j+3*k];
+            if (h[0] == '-' && h[1] == 0) continue;
+            size_t n = strlen(h);
+            if (n % 2 || n > 128) { puts("bad-op"); return; }
+            for (size_t i = 0; i < n; ++i) if (ltv_hv(h[i]) < 0) { puts("bad-op"); return; }
+        }
+    }
+    int *a = ltv_stat_counter(ltv_tok[1], ltv_tok[2], ltv_tok[3]);
+    int *b = ltv_stat_counter(ltv_tok[4], ltv_tok[5], ltv_tok[6]);
+    const buffer *ka = ltv_stat_key_of(a), *kb = ltv_stat_key_of(b);
+    if (!ka || !kb) { puts("no-key"); return; }
+    /* the entry keeps the spelling of whoever created it: print it case-folded (A-Z only, as
+     * array_caseless_compare folds), which is what identifies the entry */
+    for (int k = 0; k < 2; ++k) {
+        const buffer *kk = k ? kb : ka;
+        uint32_t n = buffer_clen(kk);
+        char *lc = malloc(n + 1);
+        for (uint32_t i = 0; i < n; ++i) { char ch = kk->ptr[i]; lc[i] = (ch >= 'A' && ch <= 'Z') ? (char)(ch | 0x20) : ch; }
+        ltv_puthex(lc, n); free(lc);
+        if (!k) fputc(' ', stdout);
+    }
+    printf(" %d\n", a == b);
+}
+
 int main(void) {
     srv.errh = fdlog_init(NULL, -1, FDLOG_FD);
     srv.errh->fd = -1;
@@ -476,6 +536,7 @@ int main(void) {
     binpath_buf.ptr = (char *)"/bin/true"; binpath_buf.used = sizeof("/bin/true"); binpath_buf.size = 0;
 
     while (ltv_next()) {
+        if (ltv_ntok >= 1 && 0 == strcmp(ltv_tok[0], "gwk")) { run_gwk(); continue; }
         if (ltv_ntok < 5 || 0 != strcmp(ltv_tok[0], "gw")) { puts("bad-op"); continue; }
         int balance = atoi(ltv_tok[1]);
         int wkr = atoi(ltv_tok[2]) & 1;       /* bit 0: worker of server.max-worker > 0 */
